@@ -65,8 +65,27 @@ func VerifC03Pipeline() {
 		return d
 	}
 	var over []map[string]any
-	if which == 5 && vrtChoice("refine", 2) == 1 {
+	refine := 0
+	if which == 5 {
+		refine = vrtChoice("refine", 3)
+	}
+	if refine == 1 {
 		over = append(over, map[string]any{"services": map[string]any{"s": map[string]any{"depends_on": map[string]any{"d1": map[string]any{"condition": "service_healthy"}}}}})
+	}
+	if refine == 2 {
+		// the spellings under test arrive in an override, on top of a base that made the same dependency optional
+		baseDoc := mk(map[string]any{"d1": map[string]any{"condition": "service_healthy", "required": false}})
+		ovr := func(v any) map[string]any {
+			return map[string]any{"services": map[string]any{"s": map[string]any{"depends_on": v}}}
+		}
+		ms, es := tcLoad(nil, nil, baseDoc, ovr(short))
+		ml, el := tcLoad(nil, nil, mk(map[string]any{"d1": map[string]any{"condition": "service_healthy", "required": false}}), ovr(long))
+		vrtAssert("both-load", es == nil && el == nil)
+		if es == nil && el == nil {
+			vrtObserve("short", tcSvc(ms, "s")[attr])
+			vrtAssert("short-equals-long-in-override", vrtDeepEqual(tcSvc(ms, "s")[attr], tcSvc(ml, "s")[attr]))
+		}
+		return
 	}
 	// the loader environment defines the names used by valueless / empty entries
 	env := types.Mapping{"EMPTY": "from-host", "INHERIT": "inherited"}
